@@ -15,7 +15,7 @@ RULE = ("differential: node A runs a generated history H (SDO traffic incl. abor
         "producer) and the traces (frames with relative ticks, callbacks, API results, driver calls) must be equal, frames of one tick "
         "compared as a multiset; timer-pool occupancy per owner class must be equal apart from A's live application timers, which keep their slots and their exact period through H, reset and P; the timer processing right after the reset must run nothing of the old communication; "
         "non-trivial = pair whose H changed >= 1 communication parameter or left a transfer/timer open; distinct by (configuration, H)")
-ASSUMPTIONS = ["equivalence is established for the probes in P only", "1003h (error history bookkeeping) and CONodeGetErr are excluded from P",
+ASSUMPTIONS = ["equivalence is established for the probes in P only", "CONodeGetErr is excluded from P",
                "H does not store an LSS configuration and ends in PRE-OPERATIONAL, OPERATIONAL or STOPPED", "no parameter groups (1010h/1011h) in these dictionaries (C17 covers them)"]
 VARIANTS = ["asan"]
 
@@ -27,9 +27,7 @@ def clone_with_values(cfg, tokens):
     c.nvm = cfg.nvm
     for o, tok in zip(cfg.objs, tokens):
         n = Obj(o.idx, o.sub, o.flags, o.type, o.kind, *o.args)
-        if o.idx == 0x1003:
-            pass
-        elif o.kind == "D":
+        if o.kind == "D":
             n.args[0] = int(tok, 16)
         elif o.kind == "V":
             n.args[1] = int(tok, 16)
@@ -200,6 +198,10 @@ def probes(rng, cfg):
     for (idx, sub) in [(0x1000, 0), (0x1001, 0), (0x1005, 0), (0x1017, 0), (0x1018, 1), (0x1016, 1), (0x1014, 0), (0x2000, 2), (0x2010, 3), (0x2020, 6), (0x1800, 1), (0x1A00, 0)]:
         if cfg.has(idx, sub):
             P += [rd(idx, sub), close]
+    hist = [(0x1003, n) for n in (0, 1, 2, 4)]
+    for (idx, sub) in hist:                              # "emergencies cleared": the history the node reports restarts like the fresh node's
+        if cfg.has(idx, sub):
+            P += [rd(idx, sub), close]
     P += ["tick 30", "rx 7e5 8 0401000000000000", "rx 7e5 8 5e00000000000000", "rx 7e5 8 0400000000000000"]
     P += ["rx %x 1 05" % (0x700 + n) for n in (2, 3, 5, 10, 11)]
     P += ["tick 120", "rx 80 0 -", "rx 100 0 -", "emcyset 0", "emcyclr 0", "trigpdo 0"]
@@ -210,6 +212,9 @@ def probes(rng, cfg):
     P += ["wr 2001 0 1 5a", "wr 2001 1 2 1234", "rx 80 0 -", "tick 3", "rx 80 0 -", "rx 100 0 -", "tick 260"]
     P += ["rx %x 1 7f" % (0x700 + n) for n in (2, 3, 5)]
     P += ["tick 400", "hbevents 2", "hbevents 3", "hbevents 5", "hblast 2", "emcyset 0", "tick 5", "emcycnt"]
+    for (idx, sub) in hist:
+        if cfg.has(idx, sub):
+            P += [rd(idx, sub), close]
     P += [rd(0x2001, 0), rd(0x2000, 1), "rx 0 2 80%02x" % nid, "tick 130", "rx 0 2 02%02x" % nid, "tick 60", "rx 0 2 01%02x" % nid, "tick 60"]
     return P
 
